@@ -224,7 +224,22 @@ pub fn leftrec_grammars() -> Vec<(&'static str, G)> {
     let g3 = G::Rec(0, b(m(or(then(e(), then(j("+"), e())), atom()))));
     let inner_b = G::Rec(1, b(m(or(then(e(), j("+")), j("x")))));
     let g4 = G::Rec(0, b(m(or(then(inner_b, j("x")), j("y")))));
+    // the cycle passes through a wrapper that hands the sub-parse a different view of the parse
+    // state (context, user state, boxing, labels, mapping): the in-progress marker must still be seen
+    let deco = |d: &dyn Fn(G) -> G| G::Rec(0, b(m(or(then(d(e()), then(j("+"), atom())), atom()))));
+    let g5 = deco(&|x| G::WithCtx(b(x), "k".into()));
+    let g6 = deco(&|x| G::MapCtx(b(x), 1));
+    let g7 = deco(&|x| G::Labelled(b(G::Map(b(x), 7)), "L".into(), true));
+    let g8 = deco(&|x| G::Wrapped(b(G::Wrapped(b(x), Wrap::Boxed)), Wrap::ArcW));
+    let g9 = deco(&|x| G::IgnoreWithCtx(b(G::Empty), b(x)));
+    let g10 = deco(&|x| G::Validate(b(G::MapErr(b(x), 3, false)), 9, 1));
     vec![
+        ("expr = (expr.with_ctx(k) op atom | atom).memoized()", g5),
+        ("expr = (map_ctx(f, expr) op atom | atom).memoized()", g6),
+        ("expr = (expr.map(f).labelled(L).as_context() op atom | atom).memoized()", g7),
+        ("expr = (Arc(expr.boxed()) op atom | atom).memoized()", g8),
+        ("expr = (empty().ignore_with_ctx(expr) op atom | atom).memoized()", g9),
+        ("expr = (expr.map_err(f).validate(v) op atom | atom).memoized()", g10),
         ("expr = (expr op atom | atom).memoized()", g1),
         ("expr = expr.memoized() op atom | atom", g2),
         ("expr = (expr op expr | atom).memoized()", g3),
